@@ -257,13 +257,46 @@ def main(tier, seed):
             slim['data_b64'] = c['data_b64']
         run.add(slim, r)
     pool.run_cases(gen_cases(tier, seed), 'vf.props.C16:run_case', timeout=60, batch=6, on_result=on, deadline=run.deadline)
+    # shebang handling with the minifier running in the other interpreters (python 2: str is bytes)
+    sheb = [('ascii', b'#!/usr/bin/env python\nx = 1\nprint(x)\n', 'utf-8'),
+            ('utf8_nonascii', u'#!/usr/bin/env pyth\u00f6n \u4e2d\nx = 1\nprint(x)\n'.encode('utf-8'), 'utf-8'),
+            ('utf8_nonascii_cookie', u'#!/usr/bin/env pyth\u00f6n\n# -*- coding: utf-8 -*-\nx = u"caf\u00e9"\nprint(len(x))\n'.encode('utf-8'), 'utf-8'),
+            ('latin1_cookie', b'#!/usr/bin/env pyth\xf6n\n# -*- coding: latin-1 -*-\nx = 1\nprint(x)\n', 'latin-1'),
+            ('latin1_cookie_equals', b'#!/usr/bin/env pyth\xf6n\n# vim: set fileencoding=latin-1 :\nx = 1\nprint(x)\n', 'latin-1'),
+            ('crlf', b'#!/usr/bin/python -u\r\nx = 1\r\nprint(x)\r\n', 'utf-8'),
+            ('only_shebang', b'#!/bin/sh\n', 'utf-8'),
+            ('shebang_spaces', b'#!   /usr/bin/python   -O  \nprint(1)\n', 'utf-8')]
+    scases = [{'op': 'shebang', 'shape': 'xshebang.' + n, 'data_b64': base64.b64encode(b).decode(), 'encoding': e, 'case_timeout': 30} for n, b, e in sheb]
+    for version, py in common.interpreters():
+        if version == '3.12-venv':
+            continue
+        if tier == 'quick' and version not in ('2.7.18', '3.6.15', '3.9.18', '3.13.0'):
+            continue
+
+        def on_s(c, r, version=version):
+            slim = {'shape': c['shape'], 'interpreter': version, 'layer': 'cross-shebang', 'data_b64': c['data_b64']}
+            if 'inconclusive' in r and r.get('status') is None:
+                run.add(slim, r)
+                return
+            out = {'status': r.get('status'), 'violations': [], 'counters': {}, 'nontrivial': []}
+            if r.get('status') == 'skip':
+                out['reason'] = 'cross-shebang: ' + r.get('reason', 'skip')
+            else:
+                out['counters'] = {'cross_interpreter_shebang_checks': r.get('checks', 0)}
+                out['nontrivial'] = ['xs|%s|%s' % (version, c['shape'])]
+            for v in r.get('violations') or []:
+                out['violations'].append({'mech': None, 'detail': '%s %s: %s' % (version, c['shape'], v['detail']), 'witness': {'interpreter': version}})
+            run.add(slim, out)
+        env = common.clean_env()
+        env['PYTHONPATH'] = common.REPO_SRC
+        pool.run_cases(scases, None, cmd=[py, '-W', 'ignore', os.path.join(common.VERIF, 'vf', 'compat_worker.py')], env=env, timeout=40, batch=8, on_result=on_s, nworkers=2)
     return run.finish(
         rule='6 programs with non-ASCII constants x 13 encodings/cookie spellings (utf-8, BOM, latin-1, cp1252, iso-8859-15, koi8-r, '
              'shift_jis, euc-jp, gbk, cp437) x {LF, CRLF, CR} x 9 shebang lines, plus hand-written edge files; API on bytes and on the '
              'decoded text, with preserve_shebang on/off, all-off and default options, and the real CLI; non-trivial/distinct = distinct '
              '(encoding, cookie, newline, shebang) shapes accepted by the interpreter and checked',
         assumptions=['ast.parse(bytes) of the interpreter is the reference decoding', 'BOM followed by #! is treated as unspecified for the first-line rule'],
-        min_nontrivial=50, required_counters=['api_calls', 'shebang_checks', 'bytes_vs_text_checks', 'executions_compared', 'cli_runs'])
+        min_nontrivial=50, required_counters=['api_calls', 'shebang_checks', 'bytes_vs_text_checks', 'executions_compared', 'cli_runs', 'cross_interpreter_shebang_checks'])
 
 
 def replay(path):
